@@ -584,18 +584,31 @@ pub fn generate(rng: &mut Rng, cfg: &Config) -> Program {
             4 => {
                 // mesh + pixel with a per-primitive attribute
                 text.push_str(&format!("struct MeshVertex{}\n{{\n    float4 position : SV_Position;\n    float2 texcoord : TEXCOORD;\n}};\n\n", p));
-                text.push_str(&format!("struct MeshPrimitive{}\n{{\n    uint material : MATERIAL{};\n}};\n\n", p, p));
+                // half of the mesh pipelines hand a second per-primitive attribute of array type to the pixel stage
+                let layers = rng.chance(1, 2);
+                if layers {
+                    features.push("per-primitive-array-attribute".into());
+                }
+                let (layers_member, layers_store, layers_param, layers_use) = if layers {
+                    (format!("    uint layers[2] : LAYERS{};\n", p), "    prim.layers[0] = ui;\n    prim.layers[1] = ui + 1u;\n".to_string(), format!(", uint i_layers[2] : LAYERS{}", p), "    ui += i_layers[0] + i_layers[1];\n".to_string())
+                } else {
+                    (String::new(), String::new(), String::new(), String::new())
+                };
+                text.push_str(&format!("struct MeshPrimitive{}\n{{\n    uint material : MATERIAL{};\n{}}};\n\n", p, p, layers_member));
                 text.push_str(&format!(
-                    "[numthreads(32, 1, 1)]\n[outputtopology(\"triangle\")]\nvoid MSMain{p}(uint3 dtid : SV_DispatchThreadID, out vertices MeshVertex{p} o_vertices[64], out primitives MeshPrimitive{p} o_primitives[32], out indices uint3 o_triangles[32])\n{{\n{prologue}    uint ui = dtid.x;\n{b1}    SetMeshOutputCounts(64, 32);\n    MeshVertex{p} vertex;\n    vertex.position = acc;\n    vertex.texcoord = acc.xy;\n    o_vertices[dtid.x] = vertex;\n    MeshPrimitive{p} prim;\n    prim.material = ui % 8;\n    o_primitives[dtid.x] = prim;\n    o_triangles[dtid.x] = uint3(0, 1, 2);\n}}\n\n",
+                    "[numthreads(32, 1, 1)]\n[outputtopology(\"triangle\")]\nvoid MSMain{p}(uint3 dtid : SV_DispatchThreadID, out vertices MeshVertex{p} o_vertices[64], out primitives MeshPrimitive{p} o_primitives[32], out indices uint3 o_triangles[32])\n{{\n{prologue}    uint ui = dtid.x;\n{b1}    SetMeshOutputCounts(64, 32);\n    MeshVertex{p} vertex;\n    vertex.position = acc;\n    vertex.texcoord = acc.xy;\n    o_vertices[dtid.x] = vertex;\n    MeshPrimitive{p} prim;\n    prim.material = ui % 8;\n{layers_store}    o_primitives[dtid.x] = prim;\n    o_triangles[dtid.x] = uint3(0, 1, 2);\n}}\n\n",
                     p = p,
                     prologue = prologue,
-                    b1 = b1
+                    b1 = b1,
+                    layers_store = layers_store
                 ));
                 text.push_str(&format!(
-                    "float4 MPSMain{p}(float2 i_texcoord : TEXCOORD, uint i_material : MATERIAL{p}) : SV_Target0\n{{\n{prologue}    uint ui = i_material;\n    acc.xy += i_texcoord;\n{b2}    return acc;\n}}\n\n",
+                    "float4 MPSMain{p}(float2 i_texcoord : TEXCOORD, uint i_material : MATERIAL{p}{layers_param}) : SV_Target0\n{{\n{prologue}    uint ui = i_material;\n{layers_use}    acc.xy += i_texcoord;\n{b2}    return acc;\n}}\n\n",
                     p = p,
                     prologue = prologue,
-                    b2 = b2
+                    b2 = b2,
+                    layers_param = layers_param,
+                    layers_use = layers_use
                 ));
                 let first = format!("    MeshShader = {};\n", if fault == Some("pipeline-error:unknown-entry-point") { "MissingEntryPoint".to_string() } else { format!("MSMain{}", p) });
                 let second = format!("    PixelShader = MPSMain{};\n", p);
